@@ -147,8 +147,10 @@ Definition payload_check (conf : vbft_config) (npeers : nat) : option payload_er
 
 (** * shuffle_hash: FNV-1a 64 of the JSON text of {txid, height, node_id, index}. *)
 
-Definition fnv1a64 (data : bytes) : N :=
-  fold_left (fun h b => u64 (fnv_prime64 * N.lxor h b)) data fnv_offset64.
+(* hash.Write folds the bytes into the state; Sum64 returns it *)
+Definition fnv_write (st : N) (data : bytes) : N :=
+  fold_left (fun h b => u64 (fnv_prime64 * N.lxor h b)) data st.
+Definition fnv1a64 (data : bytes) : N := fnv_write fnv_offset64 data.
 
 Fixpoint dec_aux (fuel : nat) (n : N) (acc : bytes) : bytes :=
   match fuel with
@@ -188,9 +190,15 @@ Definition k_height : bytes := [44;34;104;101;105;103;104;116;34;58].           
 Definition k_node_id : bytes := [44;34;110;111;100;101;95;105;100;34;58].           (* ,"node_id": *)
 Definition k_index : bytes := [44;34;105;110;100;101;120;34;58].                    (* ,"index": *)
 
+Definition json_head (txid : bytes) (height : N) : bytes :=
+  k_txid ++ 91 :: json_nums txid ++ 93 :: k_height ++ dec height ++ k_node_id.
+Definition json_tail (id : bytes) (idx : N) : bytes :=
+  json_string id ++ k_index ++ dec idx ++ [125].
 Definition shuffle_json (txid : bytes) (height : N) (id : bytes) (idx : N) : bytes :=
-  k_txid ++ 91 :: json_nums txid ++ 93 :: k_height ++ dec height ++ k_node_id ++ json_string id
-  ++ k_index ++ dec idx ++ [125].
+  json_head txid height ++ json_tail id idx.
 
-Definition shuffle_hash (txid : bytes) (height : N) (id : bytes) (idx : N) : N :=
-  fnv1a64 (shuffle_json txid height id idx).
+(** [fnv1a64 (shuffle_json txid height id idx)], with the state after the (txid, height) prefix
+    computed once per (txid, height) — the shuffle asks for one hash per table position. *)
+Definition shuffle_hash (txid : bytes) (height : N) : bytes -> N -> N :=
+  let st := fnv_write fnv_offset64 (json_head txid height) in
+  fun id idx => fnv_write st (json_tail id idx).
